@@ -32,6 +32,11 @@ type scope struct {
 	iterating map[string]bool
 	depth     int
 	noAssign  map[string]bool
+	// static locals of the function: never handed out by pickVar/pickAssignable, so that
+	// no generated expression mixes a static with a call (PHP leaves the evaluation order
+	// of `$st -= f()` / `$st + f()` unspecified when f changes $st through recursion);
+	// they are written by call-free update statements and shown by dump().
+	statics []*Var
 }
 
 type generator struct {
@@ -181,8 +186,7 @@ func (g *generator) genFunc(idx int) {
 	if !g.off("static") && g.r.Intn(3) == 0 {
 		v := &Var{Name: "st", T: TInt}
 		body = append(body, &StaticDecl{V: v, Init: int64(g.r.Intn(5))})
-		sc.read[TInt] = append(sc.read[TInt], v)
-		sc.assign[TInt] = append(sc.assign[TInt], v)
+		sc.statics = append(sc.statics, v)
 		// make sure it is modified and visible; every write form the interpreter may route
 		// through a different assignment path (++, fused add, compound, general expression)
 		k := &IntLit{int64(1 + g.r.Intn(3))}
@@ -210,8 +214,7 @@ func (g *generator) genFunc(idx int) {
 			// a string-typed static as well
 			sv := &Var{Name: "ss", T: TStr}
 			body = append(body, &StaticDecl{V: sv, Init: 0, StrInit: g.word(), IsStr: true})
-			sc.read[TStr] = append(sc.read[TStr], sv)
-			sc.assign[TStr] = append(sc.assign[TStr], sv)
+			sc.statics = append(sc.statics, sv)
 			if g.r.Intn(2) == 0 {
 				body = append(body, &Assign{V: sv, Op: ".=", E: &StrLit{g.word()}})
 			} else {
@@ -547,8 +550,43 @@ func (g *generator) dump(sc *scope) Stmt {
 	for _, v := range sc.assign[TArr] {
 		args = append(args, &Count{Arr: v}, &StrLit{"#"})
 	}
+	for _, v := range sc.statics {
+		args = append(args, &StrLit{"~"}, v)
+	}
 	args = append(args, nl())
 	return &Echo{Args: args}
+}
+
+// staticUpdate is a call-free write to one of the function's static locals.
+func (g *generator) staticUpdate(sc *scope) Stmt {
+	v := sc.statics[g.r.Intn(len(sc.statics))]
+	if v.T == TStr {
+		if g.r.Intn(2) == 0 {
+			return &Assign{V: v, Op: ".=", E: &StrLit{g.word()}}
+		}
+		return &Assign{V: v, Op: "=", E: &Bin{Op: ".", L: v, R: &StrLit{g.word()}, T: TStr}}
+	}
+	k := &IntLit{int64(1 + g.r.Intn(3))}
+	var loc Expr = k
+	if lv := g.pickVar(sc, TInt); lv != nil && g.r.Intn(2) == 0 {
+		loc = lv
+	}
+	switch g.r.Intn(7) {
+	case 0:
+		return &IncDec{V: v, Inc: g.r.Intn(2) == 0, Prefix: g.r.Intn(2) == 0}
+	case 1:
+		return &Assign{V: v, Op: []string{"+=", "-=", "*="}[g.r.Intn(3)], E: k}
+	case 2:
+		return &Assign{V: v, Op: "=", E: &Bin{Op: "-", L: v, R: loc, T: TInt}}
+	case 3:
+		return &Assign{V: v, Op: "=", E: &Bin{Op: "+", L: loc, R: v, T: TInt}}
+	case 4:
+		return &Assign{V: v, Op: "=", E: &Tern{C: &Bin{Op: ">", L: v, R: &IntLit{6}, T: TBool}, A: &IntLit{0}, B: &Bin{Op: "+", L: v, R: k, T: TInt}, T: TInt}}
+	case 5:
+		return &Assign{V: v, Op: "+=", E: loc}
+	default:
+		return &Echo{Args: []Expr{&StrLit{"S:"}, v, nl()}}
+	}
 }
 
 func (g *generator) block(sc *scope, n int) []Stmt {
@@ -576,6 +614,9 @@ func (g *generator) block(sc *scope, n int) []Stmt {
 func (g *generator) stmt(sc *scope) ([]Stmt, bool) {
 	g.budget--
 	canNest := sc.depth < g.cfg.MaxDepth && g.budget > 0
+	if len(sc.statics) > 0 && g.r.Intn(8) == 0 {
+		return []Stmt{g.staticUpdate(sc)}, false
+	}
 	for tries := 0; tries < 8; tries++ {
 		k := g.r.Intn(34)
 		switch {
